@@ -8,10 +8,14 @@
    from a parsed board / the standard position by accepted moves (C15_threefold_reachable; side conditions of
    `Reach`: the mover has a king; discharged for `Reachable` = standard / parsed / built / moved without side condition:
    C15_threefold_reachable_all), and the legality gate is the rules' legality on every reachable board
-   (C15_gate_is_rules_legality).  Also decided per run by driving the real cdylib through its stable interface with the abstract history
+   (C15_gate_is_rules_legality).
+   END TO END (C15_history, proofs/BotRun.v): for ANY list of submitted moves after set_board on a reachable board, the plugin's
+   answers (valid?, threefold?) and its final board are exactly those of a reference written purely over the rules of chess:
+   a move is applied iff Rules.is_legal_move, the position becomes Rules.make, and the flag is raised exactly when the new position
+   (placement, side, rights, e.p. file) occurs for the third time among the positions produced since the board was set.  Also decided per run by driving the real cdylib through its stable interface with the abstract history
    spec as monitor.  Interpretation (DESIGN.md): the position handed to set_board is not itself counted. *)
 From Coq Require Import NArith List Bool.
-From Chess Require Import base.Types model.Board model.MoveGen model.Apply model.Search model.Bot proofs.HashFacts proofs.BotFacts spec.IterSpec proofs.InvFacts proofs.Combine spec.Rules proofs.Reachable proofs.ReachableMore.
+From Chess Require Import base.Types model.Board model.MoveGen model.Apply model.Search model.Bot proofs.HashFacts proofs.BotFacts spec.IterSpec proofs.InvFacts proofs.Combine spec.Rules proofs.Reachable proofs.ReachableMore proofs.BotRun.
 Import ListNotations.
 Local Open Scope N_scope.
 
@@ -53,3 +57,10 @@ Print Assumptions C15_threefold_reachable_all.
 Theorem C15_gate_is_rules_legality : forall b m, Reachable b -> is_legal b m = is_legal_move (Board.abs b) m.
 Proof. exact is_legal_rules_reachable. Qed.
 Print Assumptions C15_gate_is_rules_legality.
+
+Theorem C15_history : forall b0 ms, Reachable b0 ->
+  (N.to_nat (b_half b0) + length ms < 65535)%nat -> (N.to_nat (b_full b0) + length ms < 65535)%nat ->
+  fst (bot_run (bot_set_board b0) ms) = fst (ref_run (Board.abs b0) nil ms)
+  /\ Board.abs (bt_board (snd (bot_run (bot_set_board b0) ms))) = snd (ref_run (Board.abs b0) nil ms).
+Proof. exact bot_history. Qed.
+Print Assumptions C15_history.
